@@ -229,7 +229,12 @@ func (r *Run) Call(label string, f func()) (p *PanicInfo) {
 	Beat(label)
 	defer func() {
 		if v := recover(); v != nil {
-			p = &PanicInfo{Value: fmt.Sprint(v), Frame: innermostModuleFrame(), Kind: classify(v)}
+			frame := innermostModuleFrame()
+			if frame == "unknown" {
+				// no frame of the library on the panicking stack: this is a defect of the harness, never a finding
+				panic(fmt.Sprintf("HARNESS PANIC in %s: %v", label, v))
+			}
+			p = &PanicInfo{Value: fmt.Sprint(v), Frame: frame, Kind: classify(v)}
 		}
 		Beat("harness")
 	}()
